@@ -9,6 +9,8 @@ import (
 	"net"
 	"os"
 	"strings"
+	"sync"
+	"sync/atomic"
 	"time"
 
 	"github.com/gregoryv/mq"
@@ -28,7 +30,7 @@ func init() { register(c06{}) }
 func (c06) ID() string    { return "C06" }
 func (c06) Level() string { return "exploration" }
 func (c06) Rule() string {
-	return "streams = concatenations of 1..16 frames (valid frames of all 15 types encoded by the library and by the reference encoder, frames of remaining length 0, content-malformed frames, type-0 frames) followed by nothing, arbitrary bytes or a partial next frame; read by successive ReadPacket calls through a byte-counting reader over a full-fill reader, bufio readers of 16/4096 bytes (wrapped, and handed over as they are), unwrapped *bytes.Buffer / *bytes.Reader / *strings.Reader, a connection wrapper whose Len() reports the bytes staged so far, one-byte and random fragmentation with zero-length reads, real net.Pipe / os.Pipe / loopback TCP connections fed by a fragmenting writer goroutine, and lock-step peers (one frame, then silence until it has been read) over net.Pipe / os.Pipe with and without the caller's own bufio.Reader; a connection with the deadline methods of a net.Conn on a virtual clock whose peer keeps quiet for an hour before every frame (a deadline armed by the library and left behind fires there); every first byte x remaining lengths 0..20 x several bodies with a sentinel frame behind; frames of 16 MiB and more (up to 268 435 455 in the thorough tier) with a sentinel behind. Offline checker over the per-call event log: bytes drawn per call = 1 + size of remaining-length field + remaining length (reference header parser), conservation over the stream, k-th result = result of frame k alone, io.EOF after the last frame, trailing bytes untouched. distinct = (type sequence, frame kinds, reader kind, trailer kind); non-trivial = at least two frames or a trailer"
+	return "streams = concatenations of 1..16 frames (valid frames of all 15 types encoded by the library and by the reference encoder, frames of remaining length 0, content-malformed frames, type-0 frames) followed by nothing, arbitrary bytes or a partial next frame; read by successive ReadPacket calls through a byte-counting reader over a full-fill reader, bufio readers of 16/4096 bytes (wrapped, and handed over as they are), unwrapped *bytes.Buffer / *bytes.Reader / *strings.Reader, a connection wrapper whose Len() reports the bytes staged so far, one-byte and random fragmentation with zero-length reads, real net.Pipe / os.Pipe / loopback TCP connections fed by a fragmenting writer goroutine, and lock-step peers (one frame, then silence until it has been read) over net.Pipe / os.Pipe with and without the caller's own bufio.Reader; a connection with the deadline methods of a net.Conn on a virtual clock whose peer keeps quiet for an hour before every frame (a deadline armed by the library and left behind fires there); every first byte x remaining lengths 0..20 x several bodies with a sentinel frame behind; frames of 16 MiB and more (up to 268 435 455 in the thorough tier) with a sentinel behind; 300 (1100, 5000 in the thorough tier) ReadPacket calls waiting on idle connections while a complete frame is read on one more stream. Offline checker over the per-call event log: bytes drawn per call = 1 + size of remaining-length field + remaining length (reference header parser), conservation over the stream, k-th result = result of frame k alone, io.EOF after the last frame, trailing bytes untouched. distinct = (type sequence, frame kinds, reader kind, trailer kind); non-trivial = at least two frames or a trailer"
 }
 func (c06) Assumptions() []string {
 	return []string{"readers obey the io.Reader contract", "a call whose fixed header is itself invalid (remaining length longer than four bytes) is outside the statement and ends the stream"}
@@ -36,9 +38,9 @@ func (c06) Assumptions() []string {
 
 func (c06) Phases(env run.Env) []run.Phase {
 	if env.Thorough {
-		return []run.Phase{{Name: "adjacency", N: 256 * 16}, {Name: "streams", N: 700000}, {Name: "soak", N: 12000}, {Name: "first-byte-sweep", N: 256 * 8}, {Name: "giant", N: 4}}
+		return []run.Phase{{Name: "adjacency", N: 256 * 16}, {Name: "streams", N: 700000}, {Name: "soak", N: 12000}, {Name: "first-byte-sweep", N: 256 * 8}, {Name: "giant", N: 4}, {Name: "idle-connections", N: 3}}
 	}
-	return []run.Phase{{Name: "adjacency", N: 256}, {Name: "streams", N: 3000}, {Name: "soak", N: 96}, {Name: "first-byte-sweep", N: 256}, {Name: "giant", N: 1}}
+	return []run.Phase{{Name: "adjacency", N: 256}, {Name: "streams", N: 3000}, {Name: "soak", N: 96}, {Name: "first-byte-sweep", N: 256}, {Name: "giant", N: 1}, {Name: "idle-connections", N: 1}}
 }
 
 var readerKinds = []string{"full", "bufio16", "bufio4096", "one-byte", "random", "random-zeros", "iotest-half", "bufio-direct16", "bufio-direct4096", "bytes.Buffer-direct", "bytes.Reader-direct", "strings.Reader-direct", "staged-buffer", "deadline-conn", "deadline-conn-3"}
@@ -190,6 +192,54 @@ func (c06) Run(c *run.Ctx, phase, idx int) {
 			c.Tick()
 		}
 		c.Count("first-byte-sweep", fmt.Sprintf("0x%x_", fb>>4), 1)
+	case 5:
+		// hundreds of connections on which nothing arrives, each with a
+		// ReadPacket call waiting; a frame that is completely there on one
+		// more stream must be returned all the same (a call's result depends
+		// on its own bytes only; whatever the waiting calls hold must not be
+		// something the next call needs)
+		c.Concurrent(true)
+		n := []int{300, 1100, 5000}[idx%3]
+		var entered atomic.Int64
+		writers := make([]*io.PipeWriter, n)
+		var wg sync.WaitGroup
+		for i := 0; i < n; i++ {
+			pr, pw := io.Pipe()
+			writers[i] = pw
+			wg.Add(1)
+			go func() {
+				defer wg.Done()
+				mon.Read(&enterReader{r: pr, entered: &entered})
+			}()
+		}
+		for spins := 0; entered.Load() < int64(n) && spins < 2000000; spins++ {
+			gosched()
+			if spins%1000 == 0 {
+				c.Tick()
+				time.Sleep(time.Millisecond)
+			}
+		}
+		waiting := entered.Load()
+		f := frameOfType(r, 1+r.Intn(15))
+		iso := readIsolated(f.Bytes)
+		c.Current(func() string {
+			return fmt.Sprintf("ReadPacket frame=%s while %d other ReadPacket calls wait on idle connections", hexClip(f.Bytes, 256), waiting)
+		})
+		res := mon.Read(bytes.NewReader(f.Bytes))
+		c.Eval(1)
+		for _, pw := range writers {
+			pw.Close()
+		}
+		wg.Wait()
+		c.Distinct(run.Hash64("idle", itoa(n)), true)
+		c.Count("idle-connections", fmt.Sprintf("waiting-calls=%d", waiting), 1)
+		if waiting < int64(n) {
+			c.Inconclusive(fmt.Sprintf("only %d of %d idle readers reached Read", waiting, n))
+			return
+		}
+		if ok, why := sameOutcome(iso, res); !ok {
+			c.Violation("C06/idle-connections", fmt.Sprintf("with %d ReadPacket calls waiting on idle connections, a complete frame on another stream: %s", n, why), map[string]interface{}{"frame": hexClip(f.Bytes, 512), "idle": n})
+		}
 	case 4:
 		// a frame of 16 MiB and more, a sentinel behind it
 		rem := gen.GiantSizes[idx%len(gen.GiantSizes)]
@@ -600,4 +650,19 @@ func c06LockStep(c *run.Ctx, r *gen.RNG, s streamCase, transport string) {
 			c.Note("a lock-step acknowledgement was missed once within 3 s but not within 15 s (loaded machine)")
 		}
 	}
+}
+
+// enterReader counts the calls that have reached Read on the stream.
+type enterReader struct {
+	r       io.Reader
+	entered *atomic.Int64
+	once    bool
+}
+
+func (e *enterReader) Read(p []byte) (int, error) {
+	if !e.once {
+		e.once = true
+		e.entered.Add(1)
+	}
+	return e.r.Read(p)
 }
